@@ -423,6 +423,10 @@ func init() {
 		if err != nil {
 			return "err", fails
 		}
+		if m == nil {
+			fails = append(fails, fail("C11", "nil-without-error", "GoMapToMapping returned neither a mapping nor an error (within limits=%v): the input is lost, not rejected", within))
+			return "nil", fails
+		}
 		d := m.Data()
 		// determinism under Go's map iteration order
 		for i := 0; i < 6; i++ {
